@@ -730,6 +730,12 @@ fn clock_programs() -> Vec<Program<SemFam>> {
 }
 
 pub fn program_set(set: &str) -> Vec<Program<SemFam>> {
+    if set == "highids" {
+        // every k-th program of the quick set with its threads moved to task ids above 16
+        let base = program_set("quick");
+        let k = (base.len() / 30).max(1);
+        return base.iter().enumerate().filter(|(i, p)| i % k == 0 && p.threads.len() <= 4 && p.size() <= 9).map(|(_, p)| with_high_ids(p, 16)).collect();
+    }
     if set == "clocks" {
         return clock_programs();
     }
